@@ -38,10 +38,10 @@ Proof.
 Qed.
 
 Lemma list_ptr_case f : Q_ptr c fx m f -> forall data cap rl p vs w' cp,
-  hinv data -> wf_ptr m p -> den true m 0 [] p (VList LPtr vs) -> forallb cdom vs = true ->
+  hinv data -> wf_ptr m p -> den true m 0 [] p (VList LPtr vs) ->
   canonical_list c fx (S f) (dstw data cap m rl) 0 p = KOk (w', cp) -> Qconcl m data (VList LPtr vs) w' cp.
 Proof.
-  intros HQ data cap rl p vs w' cp Hi Hwf D Hsd H.
+  intros HQ data cap rl p vs w' cp Hi Hwf D H.
   destruct (den_ptrs_inv _ _ D) as (Hv & Hk & Hb & Hc & Hsz & Lvs & K).
   destruct (Hwf Hv) as (Hseg & Hobj). unfold wf_obj in Hobj. rewrite Hk, Hb, Hsz in Hobj.
   destruct Hobj as (Ho & Hlen & _ & Hbd). change (totalSize (mkOS 0 1)) with 8 in Hbd.
@@ -93,17 +93,14 @@ Proof.
     { pose proof (ptrlist_at_safe c true m rl0 p i Hm (conj Hwf (fun _ => Hk)) ltac:(unfold list_len; rewrite Hv; lia)) as SS.
       unfold ptrlist_at in SS. rewrite PE, Hstrict, ER in SS. cbn in SS. apply SS. reflexivity. }
     assert (AP : aligned p0) by (eapply readPtr_aligned; exact ER).
-    assert (SD : cdom vi = true).
-    { assert (SDi : cdom (nthv vs i) = true).
-      { unfold nthv. eapply forallb_In; [exact Hsd|]. apply nth_In. unfold zlen in *. lia. }
-      rewrite Evi in SDi. cbn [cdom forallb] in SDi. rewrite Bool.andb_true_r in SDi. exact SDi. }
+    assert (CAP : caligned p0) by (eapply readPtr_caligned; exact ER).
     assert (Eval : nth (Z.to_nat i) vals VNull = norm vi).
     { unfold vals. change VNull with ((fun v => hd_ptr (sptrs (norm v))) VNull) at 1. rewrite map_nth.
       change (nth (Z.to_nat i) vs VNull) with (nthv vs i). rewrite Evi. cbn [norm map sptrs]. apply hd_ptr_strip1. }
     change (w_set_rl (dstw data0 cap0 m rl0) InSrc rl1) with (dstw data0 cap0 m rl1) in Hs0.
     destruct (canonical_ptr c fx f (dstw data0 cap0 m rl1) 0 p0) as [[w2 cp0]| | |] eqn:EC; try discriminate.
     cbn [kbind] in Hs0.
-    destruct (HQ data0 cap0 rl1 p0 vi w2 cp0 Hinv0 WP AP DP SD EC) as (body & cap2 & rl2 & -> & Hinv2 & Hcp & Henc).
+    destruct (HQ data0 cap0 rl1 p0 vi w2 cp0 Hinv0 WP AP CAP DP EC) as (body & cap2 & rl2 & -> & Hinv2 & Hcp & Henc).
     unfold ptrlist_set in Hs0.
     assert (PE2 : primitiveElem true cl i (mkOS 0 1) = Ok (zlen data + 8 * i)).
     { unfold primitiveElem, cl. cbn [p_valid p_len p_bit p_comp p_size p_off negb orb andb].
